@@ -38,16 +38,18 @@ def fail(prop, kind, **w):
 
 # ------------------------------------------------------------------ synthetic grammars
 class Grammar:
-    def __init__(self, ncat, head_left, density, nunary):
-        self.ncat, self.head_left = ncat, head_left
+    def __init__(self, ncat, head_left, density, nunary, mixed=False):
+        self.ncat, self.head_left, self.mixed = ncat, head_left, mixed
         self.binary = {}
         lab = 0
         for x in range(ncat):
             for y in range(ncat):
                 if rng.random() < density:
                     rs = []
-                    for _ in range(rng.choice([1, 1, 2, 3])):
-                        rs.append((rng.randrange(ncat), f'b{lab}', f'<b{lab}>'))
+                    for _ in range(rng.choice([1, 1, 2, 3, 4])):
+                        c = rng.randrange(ncat) if not rs or rng.random() < 0.6 else rs[-1][0]
+                        h = head_left if not mixed else (rng.random() < 0.5)
+                        rs.append((c, f'b{lab}', f'<b{lab}>', h))
                         lab += 1
                     self.binary[(x, y)] = rs
         self.unary = {}
@@ -60,7 +62,7 @@ class Grammar:
                 lab += 1
 
     def bin_cb(self, x, y):
-        return [(c, i, self.head_left, s1, s2) for i, (c, s1, s2) in enumerate(self.binary.get((x, y), []))]
+        return [(c, i, h, s1, s2) for i, (c, s1, s2, h) in enumerate(self.binary.get((x, y), []))]
 
     def un_cb(self, x):
         return [(c, i, True, s1, s2) for i, (c, s1, s2) in enumerate(self.unary.get(x, []))]
@@ -115,13 +117,13 @@ def all_derivations(G, tag, dep, n, roots, pruning, use_beta, beta, penalty, lim
             for k in range(1, ln):
                 for (lc, lh, ls, lt) in chart[(s, k)]:
                     for (rc, rh, rs_, rt) in chart[(s + k, ln - k)]:
-                        for ri, (c, s1, s2) in enumerate(G.binary.get((lc, rc), [])):
-                            if G.head_left:
+                        for ri, (c, s1, s2, hl) in enumerate(G.binary.get((lc, rc), [])):
+                            if hl:
                                 head, child = lh, rh
                             else:
                                 head, child = rh, lh
                             sc = ls + rs_ + float(dep[child][head + 1])
-                            items.append((c, head, sc, ('B', c, ri, s1, s2, G.head_left, lt, rt)))
+                            items.append((c, head, sc, ('B', c, ri, s1, s2, hl, lt, rt)))
                             if len(items) > limit:
                                 raise OverflowError
             chart[(s, ln)] = close_unary(items, ln != n)
@@ -187,7 +189,8 @@ def check_item_tree(G, it, tag, dep, n, roots, adm, penalty, ctx):
             fail('C02', 'binary node category not licensed', left=lc, right=rc, cat=x['cat'], **ctx)
         elif not (x['rule_id'] < len(res) and res[x['rule_id']][0] == x['cat']):
             fail('C12', 'binary node does not carry the index of the result that created it', left=lc, right=rc, cat=x['cat'], rule_id=x['rule_id'], **ctx)
-        head, child = (lh, rh) if G.head_left else (rh, lh)
+        hl = res[x['rule_id']][3] if x['rule_id'] < len(res) else G.head_left
+        head, child = (lh, rh) if hl else (rh, lh)
         if x['head_id'] != head:
             fail('C09', 'head of a binary node is not the head of its head child', node=x_brief(x), expected=head, **ctx)
         return x['cat'], head, ls + rs_ + float(dep[child][head + 1])
@@ -217,9 +220,9 @@ def one_case(G, n, ntags, roots, pruning, use_beta, beta, penalty, nbest):
             if all(tag[i][c] < -1e30 for c in range(ntags)):
                 tag[i][rng.randrange(ntags)] = np.float32(math.log(0.5))
     dep = np.log(np.array([[rng.uniform(0.01, 1.0) for _ in range(n + 1)] for _ in range(n)], dtype=np.float64)).astype(np.float32)
-    ctx = dict(grammar=dict(head_left=G.head_left, binary={f'{k[0]},{k[1]}': [r[0] for r in v] for k, v in G.binary.items()},
+    ctx = dict(grammar=dict(head_left=G.head_left, binary={f'{k[0]},{k[1]}': [[r[0], r[3]] for r in v] for k, v in G.binary.items()},
                             unary={str(k): [r[0] for r in v] for k, v in G.unary.items()}),
-               n=n, roots=sorted(roots), tag=[[round(float(x), 4) for x in r] for r in tag], dep=[[round(float(x), 4) for x in r] for r in dep],
+               mixed_heads=G.mixed, n=n, roots=sorted(roots), tag=[[round(float(x), 4) for x in r] for r in tag], dep=[[round(float(x), 4) for x in r] for r in dep],
                pruning=pruning, use_beta=use_beta, beta=beta, penalty=penalty, nbest=nbest)
     stats['n'] += 1
     try:
@@ -234,6 +237,9 @@ def one_case(G, n, ntags, roots, pruning, use_beta, beta, penalty, nbest):
     # C01: failure iff no derivation
     if status not in (0, 1):
         fail('C01', 'parse_sentence did not return 0/1', status=status, **ctx)
+        return
+    if G.mixed and status == 1:
+        stats['failed_parse'] += 1
         return
     if (status == 1) != (len(allder) == 0):
         fail('C01', 'reported as failed although a licensed derivation exists' if status == 1 else 'a parse is returned although no licensed derivation exists',
@@ -250,6 +256,8 @@ def one_case(G, n, ntags, roots, pruning, use_beta, beta, penalty, nbest):
         got.append(check_item_tree(G, it, tag, dep, n, roots, adm, penalty, ctx))
     if any(g is None for g in got):
         return
+    if G.mixed:
+        return          # optimality, pop order and k-best are stated for head-uniform grammars only
     if abs(got[0] - scores[0]) > TOL * max(1.0, abs(scores[0])):
         fail('C01', 'first parse is not a highest-scoring derivation', returned=got[0], best=scores[0], **ctx)
     # pops
@@ -278,7 +286,7 @@ def main():
     N = 900 if tier == 'quick' else 12000
     for ci in range(N):
         ncat = rng.choice([3, 4, 5, 6])
-        G = Grammar(ncat, head_left=rng.random() < 0.5, density=rng.choice([0.3, 0.5, 0.7]), nunary=rng.choice([0, 1, 2, 3]))
+        G = Grammar(ncat, head_left=rng.random() < 0.5, density=rng.choice([0.3, 0.5, 0.7]), nunary=rng.choice([0, 1, 2, 3]), mixed=(ci % 4 == 3))
         n = rng.choice([1, 2, 3, 3, 4])
         ntags = rng.choice([1, 2, 3, min(4, ncat)])
         ntags = min(ntags, ncat)
